@@ -280,6 +280,10 @@ def finish(mod, prop, tier, seed, t0, insts, results, skipped, known, pre):
         print(f"VIOLATION property={prop} replay={path}")
         print("  " + v["text"].replace("\n", "\n  ")[:3000])
         rc = 1
+    if new_violations or unreproduced:
+        json.dump([dict(key=v["key"], label=v["label"], inst=v["inst"], vals=v["vals"], info=v["info"],
+                        reproduced=v["reproduced"]) for v in new_violations + unreproduced],
+                  open(os.path.join(REPLAY_DIR, f"{prop}_all.json"), "w"), indent=1)
     problems = []
     if crashes:
         problems.append(f"{len(crashes)} instance(s) crashed: {crashes[0][0]!r}\n{crashes[0][1]}")
